@@ -51,10 +51,17 @@ func runCluster32(t *testing.T, r *hx.Rng, out *hx.Out, nextID func() string, ns
 			sort.Slice(ws, func(i, j int) bool { return ws[i].ID < ws[j].ID })
 			return ws
 		}
+		gone := map[string]bool{} // real ids of workloads whose container was deleted behind calcium's back
 		emit := func(what string) {
 			cl.Quiesce()
 			c := &case32{ID: nextID(), Prop: "C32", Share: share, WS: map[string]wres{}, Cluster: what,
 				Impl: &impl32{Out: map[string]eng32{}, Bound: map[string]eng32{}}}
+			failedUpdate := map[string]bool{}
+			for _, ev := range cl.Trace() {
+				if ev.Kind == "engineUpdate" && ev.Failed {
+					failedUpdate[ev.WID] = true
+				}
+			}
 			capR, useR, _, err := cl.Rmgr.Manager.GetNodeResourceInfo(cl.Ctx(), node, nil, false)
 			if err != nil {
 				panic(err)
@@ -64,6 +71,12 @@ func runCluster32(t *testing.T, r *hx.Rng, out *hx.Out, nextID func() string, ns
 				id := fmt.Sprintf("w%02d", i) // ordinal instead of the random workload id
 				wr := wresOf(w.Resources["cpumem"])
 				c.WS[id] = wr
+				if gone[w.ID] {
+					c.Gone = append(c.Gone, id)
+					if failedUpdate[w.ID] {
+						c.Impl.Tried = append(c.Impl.Tried, id)
+					}
+				}
 				ct, ok := cl.Hub.Get(w.ID)
 				if !ok {
 					continue
@@ -76,6 +89,35 @@ func runCluster32(t *testing.T, r *hx.Rng, out *hx.Out, nextID func() string, ns
 				}
 			}
 			out.Emit(c)
+		}
+		if seq%2 == 1 { // engine error during remap: one unbound workload's container vanished
+			mk := func(count int, req resourcetypes.RawParams) {
+				ch, err := cl.C.CreateWorkload(cl.Ctx(), &coretypes.DeployOptions{
+					Name: "app", Entrypoint: &coretypes.Entrypoint{Name: "web"}, Podname: "p32", Image: "img", Count: count,
+					DeployStrategy: "AUTO", IgnorePull: true, NodeFilter: &coretypes.NodeFilter{Podname: "p32", Includes: []string{node}},
+					Resources: resourcetypes.Resources{"cpumem": req}})
+				if err == nil {
+					for range ch {
+					}
+				}
+			}
+			mk(r.Range(3, 5), resourcetypes.RawParams{"memory-request": int64(1 << 26), "cpu-request": 0.5})
+			emit("create")
+			ws := live()
+			if len(ws) >= 3 {
+				victim := ws[r.Intn(len(ws))].ID
+				cl.Quiesce()
+				cl.Hub.Delete(victim)
+				gone[victim] = true
+				cl.ResetTrace()
+				// a binding change: the free shared cores shrink, every other unbound workload must be re-pinned
+				mk(1, resourcetypes.RawParams{"memory-request": int64(1 << 26), "cpu-request": 1.0, "cpu-bind": true})
+				emit("engine-error")
+				cl.ResetTrace()
+				mk(1, resourcetypes.RawParams{"memory-request": int64(1 << 26), "cpu-request": 1.0, "cpu-bind": true})
+				emit("engine-error")
+			}
+			continue
 		}
 		nops := r.Range(3, 7)
 		for o := 0; o < nops; o++ {
